@@ -26,6 +26,8 @@ type oracleC12 struct {
 	preBal  Bal
 	reward  bool
 	preStep Bal
+	blockDeposits  map[string]int
+	blockDepositsH int64
 }
 
 func (o *oracleC12) Start(w *World) { o.g = map[string]*gaugeModel{} }
@@ -48,6 +50,14 @@ func (o *oracleC12) AfterStep(w *World, st *Step, msgs []sdk.Msg, res *abci.Resp
 		}
 		m.D.Add(m.D, d.BigInt())
 		m.deposits++
+		sig := fmt.Sprintf("%d|%s|%s", w.height, d.String(), pg.End.UTC().Format(time.RFC3339Nano))
+		if o.blockDeposits == nil || o.blockDepositsH != w.height {
+			o.blockDeposits, o.blockDepositsH = map[string]int{}, w.height
+		}
+		o.blockDeposits[sig]++
+		if o.blockDeposits[sig] > 1 {
+			w.Probe("equal_purchases_same_block") // same amount, same end, same block — whatever the gauge identity scheme
+		}
 		if m.deposits > 1 {
 			w.Probe("gauge_same_block_collision")
 		}
@@ -164,7 +174,7 @@ func init() {
 		NewGen:    func() Generator { return &genStorage{profile: "gauges"} },
 		NewOracle: func() Oracle { return &oracleC12{} },
 		Runs:      map[string]int{"quick": 400, "thorough": 10000},
-		Required:  []string{"gauge_deposit", "gauge_release", "gauge_3_reward_blocks_inside", "reward_block_after_gauge_end", "gauge_same_block_collision"},
+		Required:  []string{"gauge_deposit", "gauge_release", "gauge_3_reward_blocks_inside", "reward_block_after_gauge_end", "equal_purchases_same_block"},
 		Rule: "online-generated histories of plan purchases and pay-once posts (amounts 1..10^13 ujkl, durations 1 day..3 years, equal purchases by different buyers in one block), check window 2..6, block time deltas from {0, microseconds, 6 s, hours, days, beyond the gauge's end}; " +
 			"non-trivial = some gauge saw at least three reward blocks inside its interval; distinct = distinct (message kind, outcome) sequences",
 	})
